@@ -36,10 +36,7 @@ import sys
 PKG_FILES = {"__init__.py", "exceptions.py", "hpack.py", "huffman.py", "huffman_constants.py", "huffman_table.py",
              "struct.py", "table.py", "py.typed"}
 OK_IMPORTS = {"logging", "typing", "collections", "collections.abc", "typing_extensions", "__future__"}
-EXPECTED_BASES = {
-    "HPACKError": ["Exception"], "HPACKDecodingError": ["HPACKError"], "InvalidTableIndexError": ["HPACKDecodingError"],
-    "InvalidTableIndex": ["InvalidTableIndexError"], "OversizedHeaderListError": ["HPACKDecodingError"],
-    "InvalidTableSizeError": ["HPACKDecodingError"],
+EXPECTED_BASES = {      # (exceptions.py: see the class branch of static_check)
     "HeaderTuple": ["tuple[bytes, bytes]"], "NeverIndexedHeaderTuple": ["HeaderTuple"],
     "HeaderTable": [], "HuffmanEncoder": [], "Encoder": [], "Decoder": [],
 }
@@ -185,11 +182,16 @@ def static_check(src, out, defs):
                     out.append("%s:%d: %s defined twice" % (fname, n.lineno, n.name))
                 seen.add(n.name)
                 bases = [ast.unparse(b) for b in n.bases]
-                if n.name not in EXPECTED_BASES:
+                if mod == "exceptions":
+                    # the class headers of exceptions.py are DATA of the translation (Gen/GExn.v) and what they
+                    # must satisfy is proved in Bridge/B_exn.v; here only the form: named bases, nothing else
+                    if not n.bases or not all(isinstance(b, ast.Name) for b in n.bases):
+                        out.append("%s:%d: class %s: bases must be plain class names" % (fname, n.lineno, n.name))
+                elif n.name not in EXPECTED_BASES:
                     out.append("%s:%d: unexpected class %s" % (fname, n.lineno, n.name))
                 elif bases != EXPECTED_BASES[n.name]:
                     out.append("%s:%d: class %s has bases %s, expected %s" % (fname, n.lineno, n.name, bases, EXPECTED_BASES[n.name]))
-                defs.append((mod, None, n.name, n.lineno, "class"))
+                defs.append((mod, bases if mod == "exceptions" else None, n.name, n.lineno, "class"))
                 cnames = {}
                 for m in n.body:
                     if isinstance(m, ast.Expr) and isinstance(m.value, ast.Constant):
@@ -263,6 +265,7 @@ for m in sorted({d[0] for d in defs}):
     if os.path.realpath(mods[m].__file__) != os.path.join(pkgdir, m + ".py"):
         out.append("hpack.%s is loaded from %s" % (m, mods[m].__file__))
 classes = {}
+bases_of = {}
 for mod, cls, name, line, kind in defs:
     M = mods[mod]
     want_file = os.path.join(pkgdir, mod + ".py")
@@ -271,6 +274,8 @@ for mod, cls, name, line, kind in defs:
         if not isinstance(C, type):
             out.append("hpack.%s.%s is not a class at run time" % (mod, name)); continue
         classes[(mod, name)] = C
+        if cls is not None:
+            bases_of[name] = cls
         continue
     if cls is None:
         f = M.__dict__.get(name)
@@ -294,7 +299,7 @@ for mod, cls, name, line, kind in defs:
 # namespaces: no callable in a translated class or module that the source does not define
 static_names = {}
 for mod, cls, name, line, kind in defs:
-    static_names.setdefault((mod, cls), set()).add(name)
+    static_names.setdefault((mod, None if kind == "class" else cls), set()).add(name)
 for (mod, name), C in classes.items():
     mro = [c.__name__ for c in C.__mro__]
     known = static_names.get((mod, name), set())
@@ -302,6 +307,9 @@ for (mod, name), C in classes.items():
         if callable(v) or isinstance(v, (property, staticmethod, classmethod)):
             if k not in known and k not in ("__new__", "__init__", "__repr__") and not isinstance(v, type):
                 out.append("hpack.%s.%s has an extra callable attribute %s at run time" % (mod, name, k))
+    if mod == "exceptions":
+        if [b.__name__ for b in C.__bases__] != bases_of.get(name) or type(C) is not type:
+            out.append("hpack.exceptions.%s has bases %s / metaclass %s at run time" % (name, [b.__name__ for b in C.__bases__], type(C).__name__))
     if name in ("HeaderTable", "Encoder", "Decoder", "HuffmanEncoder") and mro != [name, "object"]:
         out.append("hpack.%s.%s has MRO %s at run time" % (mod, name, mro))
 for m, M in mods.items():
